@@ -146,7 +146,7 @@ class CacheMachine(RuleBasedStateMachine):
         if STATS is not None:
             STATS.fail(key, list(self.history), f"step {self.history[-1]}: {detail}")
 
-    @rule(si=st.sampled_from([0, 0, 0, 0, 0, 1, 2, 3, 4, 4, 5, 6]), who=st.sampled_from(["same", "same", "restart", "second", "other", "other"]), behaviour=st.sampled_from(["newer", "newer", "same", "older", "uptodate", "uptodate", "errstatus", "garbage", "transport"]))
+    @rule(si=st.sampled_from([0, 0, 0, 0, 0, 1, 2, 3, 4, 4, 5, 6]), who=st.sampled_from(["same", "same", "restart", "second", "other", "other", "override"]), behaviour=st.sampled_from(["newer", "newer", "same", "older", "uptodate", "uptodate", "errstatus", "garbage", "transport"]))
     def request(self, si, who, behaviour):
         si = self.servers_allowed[si % len(self.servers_allowed)]
         server = SERVERS[si]
@@ -170,6 +170,19 @@ class CacheMachine(RuleBasedStateMachine):
         if held is not None and who != "same":
             self.flags.add("write-then-(uptodate|failure|restart)")
         client = live[-1]
+        call_kw = {}
+        if who == "override":
+            # a client configured for ANOTHER server with the same ORG/FID asks this server, naming it for this call only
+            # (request_profile(url=...), as ofxget's scan does): everything below is about server si all the same
+            family = [j for j in self.servers_allowed if j != si and (SERVERS[j]["org"], SERVERS[j]["fid"]) == (server["org"], server["fid"])]
+            if family:
+                j = family[len(self.history) % len(family)]
+                lj = self.clients.setdefault(j, [])
+                if not lj:
+                    lj.append(new_client(SERVERS[j]))
+                client = lj[-1]
+                call_kw = {"url": server["url"]}
+                self.flags.add("asked through another server's client with url= for this call")
         served = None
         if behaviour == "newer":
             y = self.maxyear.get(si, server["base"]) + 1
@@ -201,7 +214,7 @@ class CacheMachine(RuleBasedStateMachine):
         files_before = profrs_files(self.env.tmp)
         result, raised = None, None
         try:
-            result = client.request_profile().read()
+            result = client.request_profile(**call_kw).read()
         except Exception as e:
             raised = e
         new = self.env.net.log[before:]
@@ -209,6 +222,8 @@ class CacheMachine(RuleBasedStateMachine):
         if len(new) != 1:
             self.fail("request-count", f"{len(new)} requests for one profile call")
         else:
+            if new[0]["url"] != server["url"]:
+                self.fail("profile-request-sent-to-another-server", f"meant for {server['url']}, sent to {new[0]['url']}")
             try:
                 asked = request_dtprofup(new[0])
             except Exception as e:
